@@ -189,6 +189,7 @@ type Interp struct {
 	reached   map[string]bool
 	pathAsserts map[string]int
 	congUsed  int
+	pbMerge   bool // proto.UnmarshalOptions{Merge: true} in progress
 	noCong    bool
 	exactOf   map[int]*Term // strong (congruence) boolean -> exact twin
 	freeChoices int // schedule / map-order / sort-permutation choices on this path (not reproducible natively)
